@@ -8,9 +8,9 @@ import symtrace as st  # noqa: E402
 import emit  # noqa: E402
 
 
-def trace(repo="/repo"):
-    tr = st.Tracer()
-    ld = st.Loader(repo)
+def trace(repo="/repo", tr=None, ld=None):
+    tr = tr or st.Tracer()
+    ld = ld or st.Loader(repo)
     astro = st.with_tracer(tr, lambda: ld.load("astronomy"))
     d = st.new_input(tr, "d")        # utc_time as days since J2000 (2000-01-01T12:00)
     lon = st.new_input(tr, "lon")    # degrees
@@ -44,6 +44,14 @@ def trace(repo="/repo"):
     vzn = st.with_tracer(tr, lambda: st.lift(vz) if not hasattr(vz, "shape") or isinstance(vz, st.Sym) else st.lift(vz.item()))
     defs.append(("gen_observer_vz", ins, vzn.n))
     return tr, defs
+
+
+def known_map(tr, defs):
+    known = {}
+    for name, ins, node in defs:
+        if tr.g.nodes[node][0] not in ("const", "in", "pi"):
+            known.setdefault(node, "(%s %s)" % (name, " ".join(ins)))
+    return known
 
 
 def generate(out, repo="/repo"):
